@@ -220,3 +220,92 @@ func rejectionVocabulary(p *Program, r *Report, rule string, fn *ssa.Function, a
 	}
 	return n
 }
+
+// valueParamDeps: the parameters of the enclosing function a value is computed from (backward slice over operands;
+// control dependence is not followed).
+func valueParamDeps(v ssa.Value) map[*ssa.Parameter]bool {
+	out := map[*ssa.Parameter]bool{}
+	seen := map[ssa.Value]bool{}
+	var walk func(v ssa.Value)
+	walk = func(v ssa.Value) {
+		if v == nil || seen[v] {
+			return
+		}
+		seen[v] = true
+		if pa, ok := v.(*ssa.Parameter); ok {
+			out[pa] = true
+			return
+		}
+		in, ok := v.(ssa.Instruction)
+		if !ok {
+			return
+		}
+		for _, op := range in.Operands(nil) {
+			if op != nil && *op != nil {
+				walk(*op)
+			}
+		}
+		// a load of a local: what was stored there
+		if u, ok := v.(*ssa.UnOp); ok && u.Op == token.MUL {
+			if al, ok := u.X.(*ssa.Alloc); ok {
+				for _, ref := range *al.Referrers() {
+					if st, ok := ref.(*ssa.Store); ok && st.Addr == ssa.Value(al) {
+						walk(st.Val)
+					}
+				}
+			}
+		}
+	}
+	walk(v)
+	return out
+}
+
+// refusesOnlyFor: every rejection test of fn is computed from the allowed parameters alone.  A constructor that
+// refuses for a reason taken from another argument refuses some value the decoder accepts (or the format can carry),
+// which breaks the round trip from that side.
+func refusesOnlyFor(p *Program, r *Report, rule string, fn *ssa.Function, allowed func(*ssa.Parameter) bool, what string) int {
+	rej := rejectingBlocks(fn)
+	n := 0
+	for _, b := range fn.Blocks {
+		iff, ok := lastInstr(b).(*ssa.If)
+		if !ok || rej[b] || (!rej[b.Succs[0]] && !rej[b.Succs[1]]) {
+			continue
+		}
+		n++
+		var foreign []string
+		for pa := range valueParamDeps(iff.Cond) {
+			if !allowed(pa) {
+				foreign = append(foreign, pa.Name())
+			}
+		}
+		sort.Strings(foreign)
+		r.Add(rule, FnName(fn), fmt.Sprintf("refusal #%d is decided by %s alone", n, what), iff.Cond.Pos(), len(foreign) == 0,
+			fmt.Sprintf("condition %s; other arguments it reads: {%s}", exprString(iff.Cond), strings.Join(foreign, ", ")))
+	}
+	// a refusal that is not a branch of this function: an error handed on from a callee that was given other arguments
+	ei := errResultIndex(fn)
+	for _, ret := range returnsOf(fn) {
+		if ei < 0 || ei >= len(ret.Results) {
+			continue
+		}
+		ex, ok := ret.Results[ei].(*ssa.Extract)
+		if !ok {
+			continue
+		}
+		call, ok := ex.Tuple.(*ssa.Call)
+		if !ok {
+			continue
+		}
+		n++
+		var foreign []string
+		for pa := range valueParamDeps(call) {
+			if !allowed(pa) {
+				foreign = append(foreign, pa.Name())
+			}
+		}
+		sort.Strings(foreign)
+		r.Add(rule, FnName(fn), fmt.Sprintf("refusal #%d (an error handed on from %s) is decided by %s alone", n, calleeName(&call.Call), what), ret.Pos(), len(foreign) == 0,
+			fmt.Sprintf("other arguments the callee is given: {%s}", strings.Join(foreign, ", ")))
+	}
+	return n
+}
